@@ -34,6 +34,9 @@ sim::Config sched_from_plan(const Json& plan);
 // Wait (in simulated time) until pred holds; returns false on time-out.
 bool wait_for(const std::function<bool()>& pred, sim::i64 timeout_ns, const char* what);
 
+// build/scratch next to the variant directories of the running binary (build/<variant>/pistache_sim)
+std::string scratch_root();
+
 inline std::string hex(const std::string& s, size_t max = 64)
 {
     static const char* d = "0123456789abcdef";
